@@ -1,7 +1,7 @@
 // ---------------------------------------------------------------------------------------------
 // Unit history: the quantifier "all histories" of C06 / C10 over the ONE-STEP contract of analyze_file.
 // Vocabulary.  Needs dbview.rs (bucket / sbucket), index_spec.rs (clean_*), analyze_spec.rs (push_* / add_fdefs /
-// stmts_v*), analyze_l2.rs (in_file, named, w1, all_in_file, uses_in_file).
+// stmts_v*), history_vocab.rs (in_file, named, w1, all_in_file, uses_in_file: the definitions of analyze_l2.rs), history_seq.rs.
 //
 // A *file* here is a CANONICAL path (canon(p) of the path a notification carries; canon = canon_now is a function of the
 // one file-system state A4, so two notifications for paths with the same canonical form are events of the same file).
